@@ -532,6 +532,26 @@ def result_values(f):
     return out
 
 
+def early_stop_bound(loop):
+    """`while n > k` (k >= 1) / `while n >= k` (k >= 2) on a remaining-length counter: (name, bytes left unread) - the loop gives up while that
+    many units are still outstanding.  None for every other test."""
+    ts = loop.test.values if isinstance(loop.test, ast.BoolOp) and isinstance(loop.test.op, ast.And) else [loop.test]
+    for t in ts:
+        cp = compare_parts(t)
+        if not cp:
+            continue
+        a, op, b = cp
+        if isinstance(b, ast.Name) and isinstance(a, ast.Constant):       # `k < n`
+            a, b = b, a
+            op = {ast.Lt: ast.Gt, ast.LtE: ast.GtE}.get(op, None)
+        if isinstance(a, ast.Name) and isinstance(b, ast.Constant) and isinstance(b.value, int) and not isinstance(b.value, bool):
+            if op is ast.Gt and b.value >= 1:
+                return a.id, b.value
+            if op is ast.GtE and b.value >= 2:
+                return a.id, b.value - 1
+    return None
+
+
 def weak_loop_bound(loop):
     """the loop condition is one of the recognised *insufficient* bounds for a remaining-length counter: plain truthiness (`while n:`),
     `n != 0`, `n >= 0`, `n is not None`, or `while True` without any exit.  Anything else that `counter_of_while` does not understand
